@@ -123,6 +123,9 @@ def solo_sequences(r: TlcResult, limit: int | None = None, rng=None):
     for ch in tla_chunks(r.out, "CFGS"):
         for c in parse_tla(ch)[1]:
             cfgs[c["id"]] = c
+    # the input sequences on which a monitor is false in the model: always executed on the code as well
+    vseqs = [(o["c"], o["ins"]) for o in json_lines(r.out, "VSOLO")]
     seqs = [(o["c"], o["ins"]) for o in json_lines(r.out, "SOLO", limit, rng)]
     viol = [parse_tla(ch) for ch in tla_chunks(r.out, "MODELVIOLATION")]
+    solo_sequences.violating = vseqs
     return cfgs, seqs, viol
